@@ -100,8 +100,11 @@ deriving Repr, DecidableEq
 /-- `&TreeNodeV2{Self: []int64{0}, Total: []int64{0}}`: the right partner when the right slice is shorter -/
 def padNode : Row := ⟨0, 0, 0, 0, 0⟩
 
-/-- `childRight = childrenRight[i]` if `i < len(childrenRight)` else the pad node -/
-def pairKids (cl cr : List Row) : List (Row × Row) := cl.zipIdx.map (fun ci => (ci.1, cr.getD ci.2 padNode))
+/-- `childRight = childrenRight[i]` if `i < len(childrenRight)` else the pad node: the left slice decides the length -/
+def pairKids : List Row → List Row → List (Row × Row)
+  | [], _ => []
+  | c :: cl, [] => (c, padNode) :: pairKids cl []
+  | c :: cl, r :: cr => (c, r) :: pairKids cl cr
 
 /-- the loop `for i := len(childrenLeft)-1; i >= 0; i--` (argument: the pairs LAST FIRST): every child is queued with
     the running offsets, which then advance by the child's totals -/
